@@ -20,5 +20,6 @@ func (srv *Server) Accessories(w http.ResponseWriter, r *http.Request) {
 
 	default:
 		log.Debug.Println("Cannot handle HTTP method", r.Method)
+		w.WriteHeader(http.StatusMethodNotAllowed)
 	}
 }
